@@ -757,6 +757,7 @@ def install(it):
         ctx.assume(z3.And(u >= 0, u < 1))
         ctx.draws = getattr(ctx, "draws", [])
         ctx.draws.append(u)
+        ctx.inputs["draw:%d" % (len(ctx.draws) - 1)] = u
         return u
 
     def shaped(ctx, size, mk):
